@@ -192,6 +192,13 @@ func durableStoresIn(fn *ssa.Function) []fieldAccess {
 func init() { register("C12", checkC12) }
 
 func checkC12(c *Ctx) Meta {
+	// the store's own transaction layer (C19) as a premise, when C12 is the property being decided: a
+	// Commit that can report success without committing makes every acknowledged operation provisional
+	if c.Prop == "C12" {
+		c.pushAlias("C19-", "C12-LDB-")
+		checkC19(c)
+		c.popAlias()
+	}
 	c.Rule("C12-A", "one transaction: every exported wallet operation reaches at most one db.Update call site, and that site is not inside a loop", 9)
 	c.Rule("C12-B", "writes only inside the transaction: with the edge db.Update->closure removed, no function containing a bucket write is reachable from an exported function of keystore/wallet", 15)
 	c.Rule("C12-C", "memory after commit: no store to a durable-image field inside an Update closure or its callees; in the operation every such store (or call leading to one) lies behind the success edge of the Update result test", 8)
